@@ -1379,6 +1379,11 @@ class Engine:
         if fi is None:
             raise Unsupported('unknown function ' + qualname)
         con = self.reg.get(qualname)
+        if fi.foreign_decorators and (con is None or not con.trusted):
+            # inlining (or applying the verified contract of) a wrapped function would ignore the
+            # wrapper
+            raise Unsupported('call of %s, which is wrapped by decorator(s) %s' % (
+                qualname, ', '.join(fi.foreign_decorators)))
         args = self.bind_params(fi, pos, kws)
         if star_sym is not None:
             if fi.vararg is None or len(pos) != len(fi.params):
@@ -1576,7 +1581,8 @@ class Engine:
                 c1 = Ctx(self, pre, s1, cargs, exc=exc, entry=pre)
                 for item in es.ensures(c1):
                     s1.assume(item[1])
-                if getattr(con, 'ghost_updates', None) is not None:
+                if getattr(con, 'ghost_updates', None) is not None \
+                        and getattr(con, 'ghost_updates_on', 'all') != 'ret':
                     for gname, gval in con.ghost_updates(c0).items():
                         s1.g[gname] = gval
                 if not self.feasible(s1):
@@ -1601,6 +1607,9 @@ class Engine:
 
     def verify(self, qualname, con=None):
         fi = self.prog.funcs[qualname]
+        if fi.foreign_decorators:
+            raise Unsupported('function %s is wrapped by decorator(s) %s' % (
+                qualname, ', '.join(fi.foreign_decorators)))
         con = con or self.reg[qualname]
         self.cur = fi
         self.cur_contract = con
@@ -1681,7 +1690,8 @@ class Engine:
         self.oblige(entry, z3.BoolVal(True), 'exc', 'declared-exception')
         gu = getattr(con, 'ghost_updates', None)
         for (s1, ctrl, v) in outcomes:
-            if gu is not None and ctrl in ('ok', 'ret', 'exc'):
+            if gu is not None and ctrl in (('ok', 'ret') if getattr(con, 'ghost_updates_on', 'all')
+                                           == 'ret' else ('ok', 'ret', 'exc')):
                 # marker ghosts of this function ("the call happened"): set by definition at
                 # every exit, as its callers assume
                 for gname, gval in gu(c0).items():
